@@ -34,6 +34,7 @@ type RacRef struct {
 	Test  string `json:"test"`  // go test -run pattern
 	What  string `json:"what"`  // which clause / function it stands in for
 	Bound string `json:"bound"` // stated bound
+	Race  bool   `json:"race"`  // run under the Go race detector
 }
 
 type KnownFinding struct {
@@ -415,9 +416,19 @@ func runRac(vd, repo, prop string, b RacRef, tier string, seed int, known []Know
 	}
 	defer os.RemoveAll(dir)
 	outFile := filepath.Join(dir, "rac_out.jsonl")
-	cmd := exec.Command("go", "test", "-vet=off", "-count=1", "-timeout", "20m", "-run", "^"+b.Test+"$", ".")
+	args := []string{"test", "-vet=off", "-count=1", "-timeout", "20m"}
+	if b.Race {
+		args = append(args, "-race")
+		rep.summary["race_detector"] = true
+	}
+	args = append(args, "-run", "^"+b.Test+"$", ".")
+	cmd := exec.Command("go", args...)
 	cmd.Dir = dir
-	cmd.Env = append(os.Environ(), "GOFLAGS=-mod=mod", "GOPROXY=off", "GOSUMDB=off", "GOTOOLCHAIN=local", "VERIF_TIER="+tier, fmt.Sprintf("VERIF_SEED=%d", seed), "RAC_OUT="+outFile)
+	cgo := "CGO_ENABLED=0"
+	if b.Race {
+		cgo = "CGO_ENABLED=1"
+	}
+	cmd.Env = append(os.Environ(), cgo, "GOFLAGS=-mod=mod", "GOPROXY=off", "GOSUMDB=off", "GOTOOLCHAIN=local", "VERIF_TIER="+tier, fmt.Sprintf("VERIF_SEED=%d", seed), "RAC_OUT="+outFile)
 	t0 := time.Now()
 	out, _ := cmd.CombinedOutput()
 	rep.summary["wall_s"] = time.Since(t0).Seconds()
@@ -462,6 +473,12 @@ func runRac(vd, repo, prop string, b RacRef, tier string, seed int, known []Know
 				rep.violations = append(rep.violations, fmt.Sprintf("VIOLATION property=%s replay=%s", prop, rp))
 			}
 		}
+	}
+	if b.Race && strings.Contains(string(out), "WARNING: DATA RACE") {
+		fails++
+		rp := filepath.Join(vd, "out", "replay", prop+"_"+sanitize(b.Test)+"_datarace.txt")
+		os.WriteFile(rp, out, 0o644)
+		rep.violations = append(rep.violations, fmt.Sprintf("VIOLATION property=%s replay=%s", prop, rp))
 	}
 	rep.summary["cases"] = cases
 	rep.summary["failures"] = fails
